@@ -68,6 +68,17 @@ impl ChannelBytesWriter {
 
 impl io::Write for ChannelBytesWriter {
     fn write(&mut self, buf: &[u8]) -> io::Result<usize> {
+        #[cfg(remoc_verif)]
+        if let Some(res) = crate::exec::verif::try_blocking_send(&self.tx, buf.into()) {
+            return match res {
+                Ok(()) => {
+                    self.written = self.written.saturating_add(buf.len());
+                    Ok(buf.len())
+                }
+                Err(()) => Err(io::Error::new(io::ErrorKind::BrokenPipe, "channel closed")),
+            };
+        }
+
         match self.tx.blocking_send(buf.into()) {
             Ok(()) => {
                 self.written = self.written.saturating_add(buf.len());
@@ -124,6 +135,16 @@ impl io::Read for ChannelBytesReader {
         while self.buf.is_empty() {
             if self.failed {
                 return Err(io::Error::new(io::ErrorKind::BrokenPipe, "channel closed"));
+            }
+
+            #[cfg(remoc_verif)]
+            if let Some(msg) = crate::exec::verif::try_blocking_recv(&mut self.rx) {
+                match msg {
+                    Some(Ok(buf)) => self.buf = buf,
+                    Some(Err(())) => self.failed = true,
+                    None => return Ok(0),
+                }
+                continue;
             }
 
             match self.rx.blocking_recv() {
